@@ -99,6 +99,14 @@ func validRequest(x acc.Req, e *acc.Env, now int64) bool {
 	if x.Canon != "" {
 		route = x.Canon // a non-canonical spelling is held to the predicate of the endpoint it reaches
 	}
+	if x.Route == "line" { // a raw request line: Go's own url / path libraries say which operation it aims at
+		var id string
+		route, id = acc.CanonOf(x.Method, x.Target)
+		if route == "public" {
+			return true // /swagger.json, /docs, OPTIONS *: answered 200 to anybody (see C11_success_only_if_valid_refuted)
+		}
+		x.ID = id
+	}
 	switch route {
 	case "session":
 		c := b.Classify().Claims
@@ -236,6 +244,16 @@ func work(a lib.Args) {
 		c.Cfg = e.Cfg
 		cases = append(cases, c)
 		steps = append(steps, []int{iX})
+		n++
+	}
+	addShort := func(e *acc.Env, now int64, x acc.Req) { // list denied; X; list denied; list allowed
+		adm := adminBearer(e, now)
+		ld := acc.Req{Route: "listdeny", Method: "GET", Target: "/bids/deny", Auth: adm, Label: "baseline"}
+		la := acc.Req{Route: "listallow", Method: "GET", Target: "/bids/allow", Auth: adm, Label: "baseline"}
+		c := acc.Case{Name: "c11-" + strconv.Itoa(n), T0: now, Cfg: e.Cfg, Tags: []string{"hist", "line"},
+			Ops: []acc.Op{{K: "req", Req: &ld}, {K: "req", Req: &x}, {K: "req", Req: &ld}, {K: "req", Req: &la}}}
+		cases = append(cases, c)
+		steps = append(steps, []int{1})
 		n++
 	}
 	addHist := func(c acc.Case, m acc.HistMeta) {
@@ -435,6 +453,32 @@ func work(a lib.Args) {
 		}
 	}
 
+	if a.Replay == "" {
+		// (14) the request-line dimension: methods x targets at the corners of the router (Model/Routing.v decides what
+		// each line must be answered; Go's own url / path libraries give the oracle's reading)
+		for i, ln := range acc.LineCorners() {
+			r := rng.Fork()
+			e := envs[r.Bool()]
+			now := int64(1600000000 + r.Intn(200000000))
+			x := acc.Req{Route: "line", Method: ln.M, Target: ln.T, Label: "request-line"}
+			switch i % 4 {
+			case 0:
+				x.Auth = adminBearer(e, now)
+			case 1:
+				x.Auth = acc.ScopeBearer(e.Cfg.Host, now, []string{"relay:stats"})
+			case 2:
+				x.Auth = acc.SessionBearer(e.Cfg.Host, now, "abc", "bk-line-"+strconv.Itoa(n), []string{"read", "write"})
+			default:
+				x.Auth = acc.Bearer{Kind: "none", Label: "raw:no-header"}
+			}
+			if strings.Contains(ln.T, "/bids/") && !strings.Contains(ln.T, "?") && !strings.Contains(ln.T, "#") {
+				bid, ex := "bk-line-"+strconv.Itoa(n), strconv.FormatInt(now+50, 10)
+				x.Bid, x.Exp = &bid, &ex
+				x.Target += "?bid=" + bid + "&exp=" + ex
+			}
+			addShort(e, now, x)
+		}
+	}
 	if a.Replay == "" {
 		// (13) the request-header dimension on the access API itself: forwarding, correlation and timing headers in
 		// every shape on otherwise valid requests - none of them may change the answer
